@@ -124,7 +124,7 @@ def synthetic_shapes(isa, rnd):
 LOAD_LAT = 4.0
 
 
-def write_synthetic_models(isa, shapes, dirpath, pidx=None, fwd=None):
+def write_synthetic_models(isa, shapes, dirpath, pidx=None, fwd=None, hidden_loads=False):
     """Synthetic arch model + ISA DB for the shape table.  Register operands use the wildcard
     class so that every width of every register matches."""
     forms, isaforms = [], []
@@ -179,6 +179,9 @@ def write_synthetic_models(isa, shapes, dirpath, pidx=None, fwd=None):
         extras["p_index_latency"] = pidx
     if fwd is not None:
         extras["store_to_load_forward_latency"] = fwd
+    # models that hide loads behind stores (a port-pressure matter): dependencies, critical path and loop-carried
+    # dependencies are what they are without it
+    extras["hidden_loads"] = bool(hidden_loads)
     lt = [synth.mem(isa, base="gpr", offset="*", index="*", scale="*")]
     for m in lt:
         m.pop("class")
